@@ -293,6 +293,27 @@ class CommonModels(Models):
                 for a, lit in zip(items, parts[1:]):
                     t = z3.Concat(t, a.t, mk_str(lit))
                 return [(path, VStr(z3.simplify(t)))]
+        if ok and c.count('%') == c.count('%s') + c.count('%d') and c.count('%') >= 1:
+            import re as _re
+            items = arg.items if isinstance(arg, VTuple) else [arg]
+            specs = _re.findall(r'%[sd]', c)
+            if len(items) == len(specs) and all((sp == '%s' and isinstance(a, VStr)) or (sp == '%d' and isinstance(a, VInt))
+                                                 for sp, a in zip(specs, items)):
+                parts = _re.split(r'%[sd]', c)
+                t = mk_str(parts[0])
+                for sp, a, lit in zip(specs, items, parts[1:]):
+                    if sp == '%s':
+                        piece = a.t
+                    else:
+                        okc, cv = concrete_of(a)
+                        if okc:
+                            piece = mk_str(str(cv))
+                        else:
+                            piece = ex.fresh_str(path, 'fmt_d')
+                            path.assume_def([piece], [z3.Implies(a.t >= 0, piece == z3.IntToStr(a.t)),
+                                                      z3.Implies(a.t < 0, piece == z3.Concat(mk_str('-'), z3.IntToStr(-a.t)))])
+                    t = z3.Concat(t, piece, mk_str(lit))
+                return [(path, VStr(z3.simplify(t)))]
         return Models.str_format(self, ex, path, fmt, arg)
 
 
